@@ -2,5 +2,12 @@
 From Coq Require Import Extraction ExtrOcamlBasic.
 From Verif.Base Require Import Bytes GoNum Ord.
 From Verif.Eco Require Import RangeCore Iface All.
+From Verif.Vers Require Import Model.
+From Verif.Cli Require Import Model.
+From Verif.Spec Require All.
+From Verif Require Import Top.
 Extraction Language OCaml.
-Extraction "model.ml" ecosystems find_eco self_vok self_vcmp r_show r_contains v_show v_cmp.
+Extraction "model.ml"
+  ecosystems find_eco self_vok self_vcmp r_show r_contains v_show v_cmp
+  Spec.All.specs Spec.All.find_spec
+  model_vers model_cli oracle_vers oracle_cli exit_code.
